@@ -67,3 +67,33 @@ def use_after_callback(f):
                 if p == f.node_pos(call):
                     continue
     return bad
+
+
+def io_outcomes(f, prim):
+    """decision table of a consumer of Socket::send/recv: for each abstract result class of the primitive follow the guards
+    (fin.walk) from the block of the call and report whether a closing action is reached.
+    returns {class: (closing reached?, end)} or None when the call is not found"""
+    calls = [i for i in q.calls(f) if f.nodes[i].get("callee") == prim]
+    if not calls:
+        return None
+    call = calls[0]
+    p = f.up(call)
+    while p is not None and f.nodes[p]["k"] != "DeclStmt":
+        p = f.up(p)
+    if p is None:
+        return None
+    var = f.nodes[p]["decls"][0]["n"]
+    start = f.node_pos(call)[0]
+    closing = set(i for i in q.calls(f) if re.search(r"_closingClients\.append|->onClosed\(\)", f.r(i)))
+    out = {}
+    for cls, v, err in (("would-block", -1, 0), ("error", -1, 104), ("closed", 0, 0), ("partial", 5, 0)):
+        val = {var: v, "Socket::getLastError()": err, "size": 10, "maxSize": 10, "postponed": 1, "this->_suspended": 0, "client._suspended": 0,
+               "client._sendBuffer.isEmpty()": 0, "this->_sendBuffer.isEmpty()": 1}
+        seen, end = fin.walk(f, start, val)
+        # only what follows the call in its own block counts
+        if call in seen:
+            seen = seen[seen.index(call):]
+        # stop at the loop back-edge of run(): a `continue` shows as reaching the call's block again; walk() has a step limit instead
+        hit = [e for e in seen if e in closing]
+        out[cls] = (bool(hit), end)
+    return out
